@@ -40,6 +40,9 @@ PROFILES = [
     ('xhtml-ns-events', 1, dict(ns='xhtml', root=True, ns_events=True, pool=4, max_nodes=12)),
     ('prolog', 2, dict(pool=3, prolog=0.8, root=True, max_nodes=8, comments=0.05)),
     ('ws', 1, dict(root=True, pool=3, texts='ws', max_nodes=12)),
+    # LF/TAB/CR in attribute values and CR in text: outside the xhtml round trip (XML normalisation, finding
+    # C08-attr-ws / C08-text-cr); the Lean readers are still compared with html.parser / expat there
+    ('xml-ws', 1, dict(root=True, pool=3, attr_ws=True, text_cr=True, max_nodes=10)),
 ]
 DOCTYPE_OPTS = [None, None, ['name', 'html'], ['name', 'xhtml-strict'], ['name', 'html5'], ['name', 'XHTML11'],
                 ['tuple', 'html', None, 'about:legacy-compat'],
@@ -62,7 +65,7 @@ def pick_profile(rng):
 def xml_char_ok(s):
     for c in s:
         o = ord(c)
-        if not (o in (9, 10) or 0x20 <= o <= 0xd7ff or 0xe000 <= o <= 0xfffd or 0x10000 <= o <= 0x10ffff):
+        if not (o in (9, 10, 13) or 0x20 <= o <= 0xd7ff or 0xe000 <= o <= 0xfffd or 0x10000 <= o <= 0x10ffff):
             return False
     return True
 
@@ -83,25 +86,34 @@ def in_domain(js, method, cfg=None):
             have_dt = True
         if e[0] in ('S', 'T', 'SC'):
             started = True
+    rawrun = ''
     for i, e in enumerate(js):
         k = e[0]
         if k != 'E' and i > 0 and js[i - 1][0] == 'S' and js[i - 1][1][1] in G.VOID:
             return 'void-not-empty'
+        if k in ('DT', 'XD') and stack and stack[-1] in G.RAWTEXT:
+            return 'markup-in-rawtext'
+        if k == 'T' and stack and stack[-1] in G.RAWTEXT:
+            rawrun += e[1]
+            if method == 'html' and ('</' in rawrun or rawrun.endswith('<')):
+                return 'rawtext-endtag'
+        elif k in ('S', 'E'):
+            rawrun = ''
         if k == 'S':
             stack.append(e[1][1])
             for a, v in e[2]:
-                if not xml_char_ok(v.replace('\r', '')):
+                if not xml_char_ok(v):
                     return 'non-xml-char'
                 if method == 'xhtml' and any(c in v for c in '\n\t\r'):
                     return 'attr-ws'
-                if '\r' in v:
-                    return 'attr-cr'
         elif k == 'E':
             if stack:
                 stack.pop()
         elif k == 'T':
             if not xml_char_ok(e[1]):
-                return 'text-cr-or-non-xml-char'
+                return 'non-xml-char'
+            if method == 'xhtml' and '\r' in e[1]:
+                return 'text-cr'
             if stack and stack[-1] in G.RAWTEXT and '</' in e[1] and method == 'html':
                 return 'rawtext-endtag'
             if stack and stack[-1] in G.RAWTEXT and e[2]:
@@ -427,23 +439,25 @@ def shard(arg):
             why = in_domain(js, method, {'doctype': dt})
             if why:
                 res.count('excluded:%s:%s' % (method, why))
-                continue
+                if why not in ('attr-ws', 'text-cr'):
+                    continue
             for strip in (False, True):
                 if strip and has_xml_space(js):
                     continue
                 case = {'stream': js, 'method': method, 'strip': strip, 'cache': rng.random() < 0.7,
                         'doctype': dt, 'drop_xml_decl': dropd}
-                res.evaluations += 1
-                res.count('oracle:%s:%s' % (method, 'strip' if strip else 'nostrip'))
-                f = oracle_case(case)
-                if f:
-                    res.failures.append(f)
-                else:
-                    feats = features(js)
-                    if feats:
-                        res.nontrivial.add(json.dumps([method, strip, js], sort_keys=True)[:300])
-                    for ft in feats:
-                        res.count('feature:' + ft)
+                if not why:
+                    res.evaluations += 1
+                    res.count('oracle:%s:%s' % (method, 'strip' if strip else 'nostrip'))
+                    f = oracle_case(case)
+                    if f:
+                        res.failures.append(f)
+                    else:
+                        feats = features(js)
+                        if feats:
+                            res.nontrivial.add(json.dumps([method, strip, js], sort_keys=True)[:300])
+                        for ft in feats:
+                            res.count('feature:' + ft)
                 if G.lean_char_ok(js):
                     lines.append(outlib.model_render_line(js, cfg_of(case)))
                     meta.append(case)
